@@ -17,11 +17,13 @@ for sid, r in sorted(res.items()):
         continue
     m = json.load(open(p))
     ok_demo = r.get('demo_clean_rc', 0) == 0 and r.get('demo_seeded_rc', 1) != 0
-    det, sigs, former = [], [], []
+    det, sigs, former, timed = [], [], [], []
     for c, v in r.get('checks', {}).items():
         if v['rc'] == 1 or (v['rc'] == 2 and v['signatures']):
             det.append(c)
             sigs.append(f"{c}: " + ", ".join(v['signatures'][:6]))
+        elif v['rc'] == 124:
+            timed.append(c)
         else:
             former.append(c)
     if not (r.get('applies') and ok_demo and det and 'build_failed' not in r):
@@ -31,6 +33,9 @@ for sid, r in sorted(res.items()):
     m['signatures'] = "; ".join(sigs)
     if former:
         m['formerly_recorded'] = {c: "recorded as detecting this seed in an earlier round, but that verdict came from a defect of the then unchanged tree that has since been repaired; the final check does not report this seed" for c in former}
+    if timed:
+        m['not_rerun_to_completion'] = {c: "recorded as detecting this seed earlier; its quick tier did not finish within the regression's time limit on the loaded machine, so it was not re-confirmed" for c in timed}
+        m['detected_by'] = det + timed
     m['reconfirmed'] = f"tools/regress_seeds.py on /repo {r['head']}: patch applies, demonstration passes without and fails with it, quick tier of {', '.join(det)} reports it"
     json.dump(m, open(p, 'w'), indent=1)
 print('updated', len(res) - len(bad), 'problems', [(s, {k: r.get(k) for k in ('applies', 'demo_clean_rc', 'demo_seeded_rc', 'build_failed')}, {c: v['rc'] for c, v in r.get('checks', {}).items()}) for s, r in bad])
